@@ -3,7 +3,7 @@ From Coq Require Import ZArith List Bool.
 From Coq Require String.
 From PS.model Require Import Smt Enc Ind Prog.
 From PS.spec Require Import Spec.
-From PS.proofs Require Import Base Cons_proof Res_proof Wf_proof C06_proof Examples.
+From PS.proofs Require Import Base SortNoDup C03_contig Cons_proof Res_proof Wf_proof C06_proof Examples Examples4.
 Import ListNotations.
 Open Scope Z_scope.
 
@@ -11,17 +11,37 @@ Open Scope Z_scope.
    task constraint that is not an operand of a logical combination, the documented relation
    (guarded by the scheduled flags of the optional tasks it names): start/end at/after/before,
    precedence lax/strict/tight with offset, synced starts/ends, non-overlap, ordered/unordered
-   groups (window, length, order), and the lower bound (kinds min, exact) of
+   groups (window, length, order), contiguity (when every named task runs over a non-empty span at a non-negative
+   date -- what C01 gives for scheduled tasks of positive duration -- the spans are pairwise disjoint and every task
+   but the one starting last is immediately followed by another one), and the lower bound (kinds min, exact) of
    ScheduleNTasksInTimeIntervals.
-   PARTIAL: the contiguity clauses and the upper bound (kinds max, exact) of
-   ScheduleNTasksInTimeIntervals are in spec_C03_swept: the first are swept against the real
-   constraint system on every run (proof pending), the second is refuted on the pinned code
-   (known finding F05). *)
+   PARTIAL: the upper bound (kinds max, exact) of ScheduleNTasksInTimeIntervals is in spec_C03_swept and is refuted
+   on the pinned code (known finding F05). *)
 Theorem C03_task_constraints_partial : forall (st : pstate) (e : env),
   sat e (initialize st) ->
   forall k f, In (k, f) (spec_C03 st) -> feval e f = true.
 Proof. exact C03_sound. Qed.
 Print Assumptions C03_task_constraints_partial.
+
+(* what util.sort_no_duplicates asserts: the fresh integers are the inputs in increasing order, the inputs are distinct *)
+Theorem C03_sort_no_duplicates : forall (a xs : list Z),
+  chain_lt a -> List.length a = List.length xs -> (forall v, In v a -> In v xs) ->
+  Permutation.Permutation a xs /\ Sorted.StronglySorted Z.lt a /\ NoDup xs.
+Proof. exact sort_no_dup_perm. Qed.
+Print Assumptions C03_sort_no_duplicates.
+(* contiguity, in terms of the values of a valuation *)
+Theorem C03_contiguous : forall e c ts,
+  (forall f, In f (enc_raw c (CContiguous ts)) -> feval e f = true) -> feval e (running ts) = true ->
+  (forall a b, In (a, b) (pairs_of ts) -> teval e (E_ a) <= teval e (S_ b) \/ teval e (E_ b) <= teval e (S_ a))
+  /\ (forall t others, In (t, others) (with_others [] ts) ->
+        (forall u, In u others -> teval e (S_ u) <= teval e (S_ t)) \/ (exists u, In u others /\ teval e (S_ u) = teval e (E_ t))).
+Proof. exact contiguous_sound. Qed.
+Print Assumptions C03_contiguous.
+(* non-vacuity of the contiguity / non-delay / distance / periodic clauses: a program and a valuation on which their premises hold *)
+Theorem C03_contiguity_premises_satisfiable : exists st, reaches ex4_prog st /\ sat ex4_env (initialize st)
+  /\ List.length (spec_C03 st ++ spec_C04 st) = 31%nat /\ ex4_live st = 18%nat.
+Proof. exact ex4_sat. Qed.
+Print Assumptions C03_contiguity_premises_satisfiable.
 
 Theorem C03_hypotheses_satisfiable : exists st, reaches ex2_prog st /\ sat ex2_env (initialize st)
   /\ List.length (ps_cons st) = 18%nat /\ List.length (spec_all st) = 86%nat.
